@@ -1005,6 +1005,111 @@ ERRS = ("TSDBSchemaError", "TSDBError", "CommandError", "TypeError", "KeyError",
         "TSQLSyntaxError", "IndexError", "ValueError", "AttributeError")
 
 
+def extra_kwargs(case):
+    """options the documentation declares IGNORED for this kind of call (`extra`): `where`, `full`, `delimiter` under
+    refresh; `refresh`, `delimiter` with a source profile; `refresh`, `where`, `full` with a sentence file.  They
+    are passed to the real mkprof; the model and the oracle state the call's documented result without them."""
+    ex = case.get("extra") or {}
+    kw = {}
+    if ex.get("where") is not None:
+        kw["where"] = cond_text(ex["where"])
+    if "full" in ex:
+        kw["full"] = ex["full"]
+    if ex.get("delim") is not None:
+        kw["delimiter"] = ex["delim"]
+    if ex.get("refresh"):
+        assert not (case["kind"] == "lines" and case["stdin"] and not case.get("nosource"))
+        kw["refresh"] = True
+    return kw
+
+
+EXTRA_CONDS = [["cmp", ">", "i-id", 1], ["cmp", "<", "i-id", 0], ["cmp", "==", "i-wf", 0], ["cmp", ">=", "readings", 1],
+               ["cmp", "~", "i-input", "b"], ["cmp", "==", "zzz", 1], ["not", ["cmp", "==", "i-id", 2]]]
+
+
+def gen_extra(rng, kind, stdin=False):
+    ex = {}
+    if kind == "refresh":
+        if rng.random() < 0.8:
+            ex["where"] = rng.choice(EXTRA_CONDS)
+        if rng.random() < 0.5:
+            ex["full"] = rng.random() < 0.5
+        if rng.random() < 0.3:
+            ex["delim"] = rng.choice(["@", "\t"])
+    elif kind == "db":
+        ex["refresh"] = True
+        if rng.random() < 0.3:
+            ex["delim"] = "@"
+    elif not stdin:
+        if rng.random() < 0.7:
+            ex["refresh"] = True
+        if rng.random() < 0.6:
+            ex["where"] = rng.choice(EXTRA_CONDS)
+        if rng.random() < 0.5:
+            ex["full"] = rng.random() < 0.5
+    return ex or None
+
+
+def enumerated_option_products():
+    """round 7: options the documented behaviour treats as independent, as a deterministic cross product on a small
+    profile.  "Refreshing in place preserves all data" whatever else is passed: refresh x where (selecting some rows,
+    no row, through another relation, an undefined column, negated) x gzip x schema (none, same, added column and
+    relation, dropped column and relation) x skeleton x full x delimiter; a source profile given together with
+    refresh=True (refresh is ignored: a filtered copy) x where x full x skeleton x gzip; a sentence file with
+    refresh / where / full."""
+    item = [F("i-id", ":integer", ":key"), F("i-input", ":string"), F("i-wf", ":integer"), F("i-length", ":integer")]
+    parse = [F("parse-id", ":integer", ":key"), F("i-id", ":integer", ":key"), F("readings", ":integer")]
+    fold = [F("f-note", ":string")]
+    schema = [{"name": "item", "fields": item}, {"name": "parse", "fields": parse}, {"name": "fold", "fields": fold}]
+    d = {"schema": schema, "files": [
+        {"name": "item", "tx": gen_file([["1", "a", "1", "1"], ["2", "b c", "0", "2"], ["3", None, "1", None]], 1), "gz": None},
+        {"name": "parse", "tx": None, "gz": gen_file([["10", "1", "2"], ["20", "2", "0"], ["30", "3", "1"]], 1)},
+        {"name": "fold", "tx": gen_file([["note"], ["more"]], 1), "gz": None}]}
+    alt_add = [{"name": "item", "fields": item[:2] + [F("i-comment", ":string")] + item[2:]},
+               {"name": "parse", "fields": parse}, {"name": "fold", "fields": fold},
+               {"name": "run", "fields": BASE["run"]}]
+    alt_drop = [{"name": "item", "fields": [item[0], item[1]]}, {"name": "parse", "fields": parse}]
+    conds = [None, ["cmp", ">", "i-id", 1], ["cmp", "<", "i-id", 0], ["cmp", ">=", "readings", 1],
+             ["cmp", "==", "zzz", 1], ["not", ["cmp", "==", "i-id", 2]]]
+    for cond in conds:
+        for gz in (False, True):
+            for alt in (None, schema, alt_add, alt_drop):
+                for sk in (False, True):
+                    for full, delim in ((None, None), (False, None), (True, None), (True, "@")):
+                        ex = {}
+                        if cond is not None:
+                            ex["where"] = cond
+                        if full is not None:
+                            ex["full"] = full
+                        if delim is not None:
+                            ex["delim"] = delim
+                        if not ex:
+                            continue
+                        yield {"kind": "refresh", "dst": d, "schema": alt, "gzip": gz, "skeleton": sk, "extra": ex}
+    for cond in conds[:4]:
+        for full in (False, True):
+            for sk in (False, True):
+                for gz in (False, True):
+                    yield {"kind": "db", "src": d, "dst": None, "schema": None,
+                           "where": None if cond is None else {"cond": cond}, "full": full, "gzip": gz,
+                           "skeleton": sk, "extra": {"refresh": True}}
+    for alt in (alt_add, alt_drop):
+        yield {"kind": "db", "src": d, "dst": None, "schema": alt, "where": {"cond": conds[1]}, "full": True,
+               "gzip": True, "skeleton": False, "extra": {"refresh": True, "delim": "@"}}
+    for ex in ({"refresh": True}, {"where": conds[1]}, {"full": True}, {"refresh": True, "where": conds[2], "full": True}):
+        for gz in (False, True):
+            yield {"kind": "lines", "schema": schema, "delim": None, "lines": [cps("the dog"), cps("*x y")],
+                   "terms": None, "stdin": False, "trailing_nl": True, "gzip": gz, "skeleton": False, "dst": None,
+                   "extra": ex}
+    # histories: a copy, then refreshes that carry a filter, then a check that nothing was lost by refreshing again
+    def rf(ex, alt=None, gz=False):
+        return {"kind": "refresh", "schema": alt, "gzip": gz, "skeleton": False, "extra": ex}
+    cp = {"kind": "db", "schema": None, "where": None, "full": True, "gzip": False, "skeleton": False}
+    for cond in conds[1:4]:
+        yield {"kind": "history", "src": d, "dst": None, "gzip": False, "skeleton": False,
+               "steps": [cp, rf({"where": cond}, gz=True), rf({"where": cond, "full": False}, alt=alt_add), rf({})]}
+
+
 def step_cases(case):
     """the calls of a history as single cases (source profile shared; the destination is what the previous
     call left)"""
@@ -1315,6 +1420,7 @@ class C12(Check):
         yield from enumerated_cases()
         yield from enumerated_histories()
         yield from enumerated_plumbing()
+        yield from enumerated_option_products()
         yield from self.random_cases(rng, tier, n)
 
     def random_cases(self, rng, tier, n, kinds=None):
@@ -1326,6 +1432,17 @@ class C12(Check):
                         st["quiet"] = rng.random() < 0.5
                 else:
                     c["quiet"] = False
+            # options documented as ignored for the kind of call (refresh x where / full / delimiter, ...)
+            if c["kind"] == "history":
+                for st in c["steps"]:
+                    if rng.random() < (0.5 if st["kind"] == "refresh" else 0.15):
+                        ex = gen_extra(rng, st["kind"], st.get("stdin", False))
+                        if ex:
+                            st["extra"] = ex
+            elif rng.random() < (0.5 if c["kind"] == "refresh" else 0.12):
+                ex = gen_extra(rng, c["kind"], c.get("stdin", False))
+                if ex:
+                    c["extra"] = ex
             if c["kind"] == "lines" and c.get("dst") is None and rng.random() < 0.02:
                 c["nosource"] = True
                 c["stdin"] = False
@@ -1386,10 +1503,13 @@ class C12(Check):
             if where:
                 where = where["text"] if "text" in where else cond_text(where["cond"])
             kw.update(source=src, where=where, full=case["full"])
+            kw.update(extra_kwargs(case))      # refresh=True / delimiter: ignored when a source profile is given
         elif case["kind"] == "refresh":
             os.makedirs(dst, exist_ok=True)
             kw.update(refresh=True)
+            kw.update(extra_kwargs(case))      # where / full / delimiter: ignored by an in-place refresh
         else:
+            kw.update(extra_kwargs(case))      # refresh=True (file source) / where / full: ignored for text input
             text = raw_text(case)
             kw.update(delimiter=None if case["delim"] is None else uncps(case["delim"]))
             if case.get("nosource"):
@@ -1633,9 +1753,13 @@ class C12(Check):
                     clause = "a copied relation holds the selected source rows in a different order"
                 elif self._same_modulo_cells(have, expect[t]):
                     clause = "a field value of a copied row is changed"
+                elif refresh:
+                    # "refreshing in place (optionally changing compression or schema) preserves all data": every
+                    # record of every relation survives, whatever other options (where, full, delimiter) are passed
+                    clause = "an in-place refresh does not preserve all records of a relation"
                 else:
                     clause = "a copied relation does not hold exactly the selected source rows (loss or duplication)"
-                fail(clause, repr((t, "expected", expect[t], "got", have)))
+                fail(clause, repr((t, "expected", expect[t], "got", have, "ignored options", case.get("extra"))))
         self._files_clause(case, res, got, target, expect, list(sschema), fail)
 
     @staticmethod
@@ -1785,7 +1909,7 @@ class C12(Check):
         tf = dir_schema({"schema": target_of(case)})[t]
         merged = [r for i, r in enumerate(kept) if i == 0 or r != kept[i - 1]]
         want = [n_xform(r, sschema[t], tf) for r in merged]
-        mm = re.search(r"'got', (.*)\)$", str(failure.get("detail", "")), re.S)
+        mm = re.search(r"'got', (.*), 'ignored options', ", str(failure.get("detail", "")), re.S)
         if mm and mm.group(1) == repr(want):
             return "F20"
         return None
@@ -1812,6 +1936,8 @@ class C12(Check):
             inc("history:calls %d" % len(case["steps"]))
             for a, b in zip(case["steps"], case["steps"][1:]):
                 inc("history:%s then %s" % (a["kind"], b["kind"]))
+            if any(st["kind"] == "refresh" and (st.get("extra") or {}).get("where") is not None for st in case["steps"]):
+                inc("history:a refresh carrying a where condition")
             if any(st.get("quiet") is False for st in case["steps"]):
                 inc("history:a call with quiet=False")
             outs = [o.get("res") for o in (res or {}).get("steps", [])]
@@ -1830,6 +1956,12 @@ class C12(Check):
             inc("res:" + str(res.get("res")))
         if case.get("quiet") is False:
             inc(k + ":quiet=False (summary printed)")
+        ex = case.get("extra") or {}
+        for o in sorted(ex):
+            inc("%s:ignored option passed: %s" % (k, o))
+        if k == "refresh" and ex.get("where") is not None:
+            inc("refresh:where x gzip=%s schema=%s skeleton=%s" % (case["gzip"], case.get("schema") is not None,
+                                                                    case["skeleton"]))
         if case.get("nosource"):
             inc("lines:source is neither file nor directory (oracle only)")
         inc("gzip:%s skeleton:%s" % (case["gzip"], case["skeleton"]))
